@@ -17,6 +17,7 @@ import (
 	"runtime/debug"
 	"strconv"
 	"strings"
+	"sync"
 	"sync/atomic"
 	"time"
 	"unsafe"
@@ -79,6 +80,7 @@ type mail struct {
 	tag    string // what the point is (for replay listings)
 	where  string
 	sel    int
+	slot   bool // perform the channel operation through the rendezvous slot instead of the real channel
 	notes  []note
 }
 
@@ -110,8 +112,11 @@ type thread struct {
 	poison  bool
 	exiting bool
 	fired   bool // for AfterFunc callback threads
-	timer   *Timer
-	user    int // depth of user-code sections entered on this thread
+	// unbuffered rendezvous: the scheduler has paired this (receiving) thread with a sender
+	committed bool
+	forcedSel int
+	timer     *Timer
+	user      int // depth of user-code sections entered on this thread
 }
 
 const (
@@ -201,6 +206,7 @@ type exec struct {
 	lastRun  *thread
 	subject  *thread // thread whose sub-decision is being taken
 	firedH   H       // commutative sum of the causal hashes of timer firings
+	optBuf   []option
 	draws    int
 	objH     map[uintptr]H
 	noteOrd  uint64
@@ -229,8 +235,9 @@ func Execute(o Options, main func()) *Result {
 	if o.Epoch == 0 {
 		o.Epoch = DefaultEpoch
 	}
-	e := &exec{o: o, locks: map[unsafe.Pointer]*lockSt{}, res: &Result{}, now: o.Epoch, objH: map[uintptr]H{}}
+	e := &exec{o: o, locks: map[unsafe.Pointer]*lockSt{}, res: &Result{Trace: make([]Decision, 0, 128)}, now: o.Epoch, objH: map[uintptr]H{}, optBuf: make([]option, 0, 8)}
 	startWatchdog()
+	slots = map[uintptr][]any{}
 	setEx(e)
 	t := e.newThread("main", false)
 	t.mail.kind = OpStart
@@ -362,7 +369,7 @@ func (e *exec) loop() {
 
 //go:norace
 func (e *exec) options() ([]option, bool) {
-	var opts []option
+	opts := e.optBuf[:0]
 	curEnabled := false
 	if e.cur != nil && !e.cur.done && e.enabled(e.cur) {
 		opts = append(opts, option{t: e.cur})
@@ -392,6 +399,7 @@ func (e *exec) options() ([]option, bool) {
 	if !curEnabled {
 		e.cur = nil
 	}
+	e.optBuf = opts
 	return opts, curEnabled
 }
 
@@ -511,15 +519,15 @@ func (e *exec) enabled(t *thread) bool {
 		st := e.locks[m.obj]
 		return st == nil || st.writer == nil
 	case OpRecv:
-		return recvReady(m.ch)
+		return t.committed || e.recvReady(t, m.ch)
 	case OpSend:
-		return sendReady(m.ch)
+		return e.sendReady(t, m.ch)
 	case OpSelect:
-		if m.hasDef {
+		if m.hasDef || t.committed {
 			return true
 		}
 		for _, c := range m.cases {
-			if c.Send && sendReady(c.Ch) || !c.Send && recvReady(c.Ch) {
+			if c.Send && e.sendReady(t, c.Ch) || !c.Send && e.recvReady(t, c.Ch) {
 				return true
 			}
 		}
@@ -534,7 +542,58 @@ func (e *exec) enabled(t *thread) bool {
 	return false
 }
 
-func recvReady(ch any) bool {
+func isUnbuffered(ch any) bool {
+	v := reflect.ValueOf(ch)
+	return v.IsValid() && !v.IsNil() && v.Cap() == 0
+}
+
+func isClosed(ch any) bool {
+	v := reflect.ValueOf(ch)
+	if !v.IsValid() || v.IsNil() || v.Type().ChanDir()&reflect.RecvDir == 0 || v.Len() > 0 {
+		return false
+	}
+	x, ok := v.TryRecv()
+	if ok {
+		panic("vrt: peek consumed an element")
+	}
+	return x.IsValid()
+}
+
+// partners returns the threads (other than self) waiting at a gate with an interest in the
+// opposite operation on the unbuffered channel ch.
+//
+//go:norace
+func (e *exec) partners(self *thread, ch any, wantSend bool) []*thread {
+	key := chanKey(ch)
+	var out []*thread
+	for _, t := range e.threads {
+		if t == self || t.done || t.committed {
+			continue
+		}
+		m := &t.mail
+		switch m.kind {
+		case OpSend:
+			if wantSend && chanKey(m.ch) == key {
+				out = append(out, t)
+			}
+		case OpRecv:
+			if !wantSend && chanKey(m.ch) == key {
+				out = append(out, t)
+			}
+		case OpSelect:
+			for _, c := range m.cases {
+				if c.Send == wantSend && chanKey(c.Ch) == key {
+					out = append(out, t)
+					break
+				}
+			}
+		}
+	}
+	return out
+}
+
+//go:norace
+func (e *exec) recvReady(self *thread, ch any) bool {
 	v := reflect.ValueOf(ch)
 	if !v.IsValid() || v.IsNil() {
 		return false
@@ -542,31 +601,25 @@ func recvReady(ch any) bool {
 	if v.Len() > 0 {
 		return true
 	}
-	x, ok := v.TryRecv()
-	if ok {
-		panic("vrt: peek consumed an element (unbuffered rendezvous is not supported)")
+	if isClosed(ch) {
+		return true
 	}
-	return x.IsValid() // closed
+	if v.Cap() == 0 {
+		return len(e.partners(self, ch, true)) > 0
+	}
+	return false
 }
 
-func sendReady(ch any) bool {
+//go:norace
+func (e *exec) sendReady(self *thread, ch any) bool {
 	v := reflect.ValueOf(ch)
 	if !v.IsValid() || v.IsNil() {
 		return false
 	}
 	if v.Cap() == 0 {
-		if v.Type().ChanDir()&reflect.RecvDir != 0 {
-			if x, ok := v.TryRecv(); !ok && x.IsValid() {
-				return true // closed: the send will panic, as in Go
-			}
-		}
-		unsupported("send on an unbuffered channel")
-		return false
+		return isClosed(ch) || len(e.partners(self, ch, false)) > 0
 	}
-	if v.Len() < v.Cap() {
-		return true
-	}
-	return false
+	return v.Len() < v.Cap() || isClosed(ch)
 }
 
 //go:norace
@@ -674,7 +727,22 @@ func (e *exec) runThread(t *thread) bool {
 	m := &t.mail
 	sel := 0
 	e.subject = t
+	m.slot = false
+	if t.committed {
+		// the receiving half of a rendezvous arranged earlier: take the value from the slot
+		t.committed = false
+		m.slot = true
+		return e.resume(t, t.forcedSel)
+	}
 	switch m.kind {
+	case OpSend:
+		if isUnbuffered(m.ch) && !isClosed(m.ch) {
+			return e.rendezvous(t, 0, m.ch, nil, 0)
+		}
+	case OpRecv:
+		if isUnbuffered(m.ch) && !isClosed(m.ch) {
+			return e.rendezvous(nil, 0, m.ch, t, 0)
+		}
 	case OpLock:
 		st := e.locks[m.obj]
 		if st == nil {
@@ -692,7 +760,7 @@ func (e *exec) runThread(t *thread) bool {
 	case OpSelect:
 		var ready []int
 		for i, c := range m.cases {
-			if c.Send && sendReady(c.Ch) || !c.Send && recvReady(c.Ch) {
+			if c.Send && e.sendReady(t, c.Ch) || !c.Send && e.recvReady(t, c.Ch) {
 				ready = append(ready, i)
 			}
 		}
@@ -710,6 +778,14 @@ func (e *exec) runThread(t *thread) bool {
 			}
 			sel = ready[k]
 		}
+		if sel >= 0 {
+			if c := m.cases[sel]; isUnbuffered(c.Ch) && !isClosed(c.Ch) {
+				if c.Send {
+					return e.rendezvous(t, sel, c.Ch, nil, 0)
+				}
+				return e.rendezvous(nil, 0, c.Ch, t, sel)
+			}
+		}
 	case OpChoose:
 		if m.n > 1 {
 			k := e.pick(m.n, false, "choose", func() string { return "T" + strconv.Itoa(t.id) + " choose(" + strconv.Itoa(m.n) + ") " + m.tag })
@@ -721,6 +797,61 @@ func (e *exec) runThread(t *thread) bool {
 	case OpCondWait:
 		condConsume(m.obj, m.n)
 	}
+	return e.resume(t, sel)
+}
+
+// rendezvous pairs a sender and a receiver on an unbuffered channel. Exactly one of snd / rcv is
+// given (the thread the scheduler chose to run); the partner is chosen among the threads waiting
+// with the opposite interest. The sender runs now and deposits its value in the slot; the receiver
+// is committed to its case and takes the value when it is next scheduled.
+//
+//go:norace
+func (e *exec) rendezvous(snd *thread, sndSel int, ch any, rcv *thread, rcvSel int) bool {
+	chosen := snd
+	if chosen == nil {
+		chosen = rcv
+	}
+	cands := e.partners(chosen, ch, snd == nil)
+	if len(cands) == 0 {
+		e.abort = "vrt: rendezvous without partner"
+		return false
+	}
+	k := 0
+	if len(cands) > 1 {
+		k = e.pick(len(cands), false, "rendezvous", func() string { return "T" + strconv.Itoa(chosen.id) + " rendezvous partner" })
+		if k < 0 {
+			return false
+		}
+	}
+	p := cands[k]
+	caseOf := func(t *thread, send bool) int {
+		if t.mail.kind != OpSelect {
+			return 0
+		}
+		key := chanKey(ch)
+		for i, c := range t.mail.cases {
+			if c.Send == send && chanKey(c.Ch) == key {
+				return i
+			}
+		}
+		return 0
+	}
+	if snd == nil {
+		snd, sndSel = p, caseOf(p, true)
+	} else {
+		rcv, rcvSel = p, caseOf(p, false)
+	}
+	rcv.committed, rcv.forcedSel = true, rcvSel
+	snd.mail.slot = true
+	return e.resume(snd, sndSel)
+}
+
+// resume hands the baton to t (which performs its pending operation with selection sel) and waits
+// for it to come back.
+//
+//go:norace
+func (e *exec) resume(t *thread, sel int) bool {
+	m := &t.mail
 	m.sel = sel
 	e.event(t, sel)
 	if e.lastRun != nil && e.lastRun != t {
@@ -954,18 +1085,80 @@ func Choose(n int, tag string) int {
 
 func Recv[T any](c <-chan T) T {
 	RecvPoint(c)
-	return <-c
+	return SelRecv(c)
 }
 
 func Recv2[T any](c <-chan T) (T, bool) {
 	RecvPoint(c)
-	v, ok := <-c
-	return v, ok
+	return SelRecv2(c)
 }
 
 func Send[T any](c chan<- T, v T) {
 	SendPoint(c)
+	SelSend(c, v)
+}
+
+// SelRecv / SelRecv2 / SelSend perform the channel operation the scheduler has just allowed:
+// the real operation (guaranteed not to block), or, for an unbuffered channel, the transfer
+// through the rendezvous slot.
+func SelRecv[T any](c <-chan T) T {
+	if slotMode() {
+		v, _ := takeSlot(chanKey(c)).(T)
+		return v
+	}
+	return <-c
+}
+
+func SelRecv2[T any](c <-chan T) (T, bool) {
+	if slotMode() {
+		v, _ := takeSlot(chanKey(c)).(T)
+		return v, true
+	}
+	v, ok := <-c
+	return v, ok
+}
+
+func SelSend[T any](c chan<- T, v T) {
+	if slotMode() {
+		putSlot(chanKey(c), v)
+		return
+	}
 	c <- v
+}
+
+var slotMu sync.Mutex
+var slots = map[uintptr][]any{}
+
+//go:norace
+func slotMode() bool {
+	if ex == nil || ex.cur == nil {
+		return false
+	}
+	m := ex.cur.mail.slot
+	ex.cur.mail.slot = false
+	return m
+}
+
+func putSlot(k uintptr, v any) {
+	slotMu.Lock()
+	slots[k] = append(slots[k], v)
+	slotMu.Unlock()
+}
+
+func takeSlot(k uintptr) any {
+	slotMu.Lock()
+	defer slotMu.Unlock()
+	q := slots[k]
+	if len(q) == 0 {
+		panic("vrt: rendezvous slot empty")
+	}
+	v := q[0]
+	if len(q) == 1 {
+		delete(slots, k)
+	} else {
+		slots[k] = q[1:]
+	}
+	return v
 }
 
 func Close[T any](c chan<- T) {
